@@ -120,6 +120,25 @@ def handle (op : String) (a : List String) : Option String :=
         | _ => none
       | _, _ => some "undecodable"
     | _, _ => none
+  -- scalar multiplications of the internal package: the RFC 8032 reference (scalars reduced modulo L first, except for `clamp`)
+  | "c14.sm", [op, a, A, b] =>
+    match parseV a, parseV A, parseV b with
+    | some a, some A, some b =>
+      let ka := Ed25519.leNat a % Ed25519.L
+      let kb := Ed25519.leNat b % Ed25519.L
+      match op with
+      | "base" => some ("ok " ++ hxv (Ed25519.Point.mul ka Ed25519.basePoint).encode)
+      | "clamp" => some ("ok " ++ hxv (Ed25519.Point.mul (Ed25519.clampedScalar a) Ed25519.basePoint).encode)
+      | "var" =>
+        match Ed25519.Point.decode A with
+        | some P => some ("ok " ++ hxv (Ed25519.Point.mul ka P).encode)
+        | none => some "undecodable"
+      | "double" =>
+        match Ed25519.Point.decode A with
+        | some P => some ("ok " ++ hxv ((Ed25519.Point.mul ka P).add (Ed25519.Point.mul kb Ed25519.basePoint)).encode)
+        | none => some "undecodable"
+      | _ => none
+    | _, _, _ => none
   | "c14.key", [seed] => (parseV seed).map fun seed => "ok " ++ hxv (Ed25519.newKeyFromSeed sha512 seed)
   | "c14.sign", [seed, msg] =>
     match parseV seed, parseV msg with
